@@ -333,6 +333,7 @@ func c04ConfigPath(ctx *Ctx, idx int) {
 		{"object-pid-defaults", "    controlAlgorithm:\n      pid:\n        p: 0.3\n        i: 0.02\n        d: 0.005\n", "pid"},
 		{"string-direct", "    controlAlgorithm: direct\n", "direct"},
 		{"object-direct-limit", "    controlAlgorithm:\n      direct:\n        maxPwmChangePerCycle: 7\n", "ratelimit"},
+		{"deprecated-controlLoop", "    controlLoop:\n      p: 0.3\n      i: 0.02\n      d: 0.005\n", "pid"},
 	}
 	var sb strings.Builder
 	sensorFile := filepath.Join(dir, "sensor")
